@@ -393,7 +393,6 @@ impl<const N: u8> Comp for Odd<N> {
     const N: u8 = N;
     const HAS_SERIAL: bool = false;
     fn make(p: u32) -> Self {
-        ledger::count_up(Kind::Odd, N);
         Odd([p as u8, (p >> 8) as u8, (p >> 16) as u8])
     }
     fn norm(p: u32) -> u32 {
@@ -414,16 +413,12 @@ impl<const N: u8> Comp for Odd<N> {
 impl<const N: u8> Clone for Odd<N> {
     fn clone(&self) -> Self {
         ledger::tick(Callback::Clone);
-        ledger::count_up(Kind::Odd, N);
         Odd(self.0)
     }
 }
-impl<const N: u8> Drop for Odd<N> {
-    fn drop(&mut self) {
-        ledger::count_down(Kind::Odd, N);
-        ledger::tick(Callback::Drop);
-    }
-}
+// `Odd` is the one kind WITHOUT a `Drop` implementation: plain data, `needs_drop::<Odd<N>>()` is
+// false, so fast paths for types without drop glue (in the library or in `Vec`) are exercised.
+// Consequently its values are not counted in the ledger.
 impl<const N: u8> PartialEq for Odd<N> {
     fn eq(&self, o: &Self) -> bool {
         ledger::tick(Callback::Eq);
@@ -450,7 +445,6 @@ impl<'de, const N: u8> Deserialize<'de> for Odd<N> {
             return Err(serde::de::Error::custom("bad Odd payload"));
         }
         let p = (-(v + 1)) as u32;
-        ledger::count_up(Kind::Odd, N);
         Ok(Odd([p as u8, (p >> 8) as u8, (p >> 16) as u8]))
     }
 }
